@@ -356,7 +356,9 @@ def run(tier):
       ms.append(M_NONREC)
     elif q < 0.35:
       ms.append(M_FEATS)
-    elif q < 0.45 and not ({'def', 'listops'} <= p.tags):
+    elif q < 0.45 and not ({'def', 'listops'} <= p.tags) and 'kinds2' not in p.tags:
+      # (ASSERT_STATEMENTS / LISTS raise NotImplementedError by design for assert messages that
+      # are not string literals and for chained assignment: programs with those kinds stay out)
       ms.append(M_ALL)
     return ms
 
